@@ -19,18 +19,24 @@ CONSTANTS N, L
 
 RowMenu == { [uid |-> 0, ts |-> t, dur |-> 1, stream |-> s, corr |-> IF s = 7 THEN 1 ELSE -1, name |-> n, cat |-> "x", iter |-> it, rank |-> rk] :
                t \in {0, 2}, s \in {-1, 7}, n \in {"aten::add", "Event Sync"}, it \in {-1, 3, 4}, rk \in {0, 1} }
-Frames == UNION { { [j \in 1..n |-> [f[j] EXCEPT !.uid = j]] : f \in [1..n -> RowMenu] } : n \in 0..N }
 FilterMenu == { [k |-> "iter", its |-> {3}], [k |-> "iter", its |-> {3, 4}], [k |-> "iteridx", idx |-> {0}], [k |-> "iteridx", idx |-> {1}],
                 [k |-> "rank", ranks |-> {0}], [k |-> "time", a |-> 0, b |-> 2], [k |-> "time", a |-> 1, b |-> 3],
                 [k |-> "name", pat |-> "aten::"], [k |-> "gpu"], [k |-> "cpu"] }
 
-VARIABLES frame0, hasST, cur, hist
-vars == <<frame0, hasST, cur, hist>>
-Init == frame0 \in Frames /\ hasST \in BOOLEAN /\ cur = frame0 /\ hist = <<>>
-ApplyOne == /\ Len(hist) < L
+VARIABLES frame0, hasST, cur, hist, picked
+vars == <<frame0, hasST, cur, hist, picked>>
+\* one initial state; the frame is built row by row and then frozen (Start), so that TLC's workers share the frames: initial states and
+\* the successors of one state are processed by a single thread
+Init == frame0 = <<>> /\ hasST = FALSE /\ cur = <<>> /\ hist = <<>> /\ picked = FALSE
+AddRow == /\ ~picked /\ Len(frame0) < N
+          /\ \E r \in RowMenu : frame0' = Append(frame0, [r EXCEPT !.uid = Len(frame0) + 1])
+          /\ cur' = frame0' /\ UNCHANGED <<hasST, hist, picked>>
+Start == /\ ~picked /\ picked' = TRUE /\ hasST' \in BOOLEAN /\ UNCHANGED <<frame0, cur, hist>>
+Pick == AddRow \/ Start
+ApplyOne == /\ picked /\ Len(hist) < L
             /\ \E f \in FilterMenu : cur' = Apply(f, cur, hasST) /\ hist' = Append(hist, f)
-            /\ UNCHANGED <<frame0, hasST>>
-Next == ApplyOne
+            /\ UNCHANGED <<frame0, hasST, picked>>
+Next == Pick \/ ApplyOne
 Spec == Init /\ [][Next]_vars
 
 Uids(F) == [j \in DOMAIN F |-> F[j].uid]
